@@ -41,6 +41,12 @@ theorem decVal_scalar_head (m n : Nat) (hm : m < 8) (hn : n < 184467440737095516
       decodeArg (b.toNat % 32) (tail ++ payload) = some (n, payload) :=
   encodeHead_spec m n hm hn payload
 
+/-- items of major type 0-3 and 7 are handled by `decScalar`, whatever the fuel (>= 1) -/
+theorem decVal_scalar (f d : Nat) (tag : Option Nat) (b : UInt8) (rest : Bytes)
+    (h4 : b.toNat / 32 ≠ 4) (h5 : b.toNat / 32 ≠ 5) (h6 : b.toNat / 32 ≠ 6) :
+    decVal (f + 1) d tag (b :: rest) = decScalar tag b rest := by
+  cases tag <;> simp only [decVal, h4, h5, h6, if_false]
+
 mutual
 theorem decVal_enc : ∀ (v : Val) (fuel d : Nat) (rest : Bytes),
     wfVal v = true → d + depthVal v ≤ maxDepth → need v ≤ fuel →
@@ -49,7 +55,9 @@ theorem decVal_enc : ∀ (v : Val) (fuel d : Nat) (rest : Bytes),
     obtain ⟨f, rfl⟩ : ∃ f, fuel = f + 1 := ⟨fuel - 1, by simp [need] at hf; omega⟩
     simp only [wfVal, decide_eq_true_eq] at hw
     obtain ⟨b, tail, he, hm, hd⟩ := encodeHead_spec 0 n (by omega) hw rest
-    simp only [encodeRaw, he, List.cons_append, decVal, hm, if_true, hd]
+    simp only [encodeRaw, he, List.cons_append]
+    rw [decVal_scalar f d none b _ (by omega) (by omega) (by omega)]
+    simp only [decScalar, decUInt, hm, if_true, hd]
   | .nint n, fuel, d, rest, hw, _, hf => by
     obtain ⟨f, rfl⟩ : ∃ f, fuel = f + 1 := ⟨fuel - 1, by simp [need] at hf; omega⟩
     simp only [wfVal, decide_eq_true_eq] at hw
@@ -57,7 +65,9 @@ theorem decVal_enc : ∀ (v : Val) (fuel d : Nat) (rest : Bytes),
     have h0 : ¬ (1 = 0) := by omega
     have h1 : ¬ (n = 18446744073709551615) := by omega
     have h2 : ¬ (n ≥ 9223372036854775808) := by omega
-    simp only [encodeRaw, he, List.cons_append, decVal, hm, h0, if_false, if_true, hd, h1, h2]
+    simp only [encodeRaw, he, List.cons_append]
+    rw [decVal_scalar f d none b _ (by omega) (by omega) (by omega)]
+    simp only [decScalar, decNInt, hm, h0, if_false, if_true, hd, h1, h2]
   | .bytes s, fuel, d, rest, hw, _, hf => by
     obtain ⟨f, rfl⟩ : ∃ f, fuel = f + 1 := ⟨fuel - 1, by simp [need] at hf; omega⟩
     simp only [wfVal, decide_eq_true_eq] at hw
@@ -66,8 +76,9 @@ theorem decVal_enc : ∀ (v : Val) (fuel d : Nat) (rest : Bytes),
     have h0 : ¬ (2 = 0) := by omega
     have h1 : ¬ (2 = 1) := by omega
     have h2 : ¬ (s.length > maxStrLen) := by omega
-    simp only [encodeRaw, he, List.cons_append, List.append_assoc, decVal, hm, h0, h1, if_false,
-      if_true, hd, h2, takeN_append]
+    simp only [encodeRaw, he, List.cons_append, List.append_assoc]
+    rw [decVal_scalar f d none b _ (by omega) (by omega) (by omega)]
+    simp only [decScalar, decBytes, hm, h0, h1, if_false, if_true, hd, h2, takeN_append]
   | .text s, fuel, d, rest, hw, _, hf => by
     obtain ⟨f, rfl⟩ : ∃ f, fuel = f + 1 := ⟨fuel - 1, by simp [need] at hf; omega⟩
     simp only [wfVal, decide_eq_true_eq] at hw
@@ -77,8 +88,9 @@ theorem decVal_enc : ∀ (v : Val) (fuel d : Nat) (rest : Bytes),
     have h1 : ¬ (3 = 1) := by omega
     have h2 : ¬ (3 = 2) := by omega
     have h3 : ¬ (s.length > maxStrLen) := by omega
-    simp only [encodeRaw, he, List.cons_append, List.append_assoc, decVal, hm, h0, h1, h2, if_false,
-      if_true, hd, h3, takeN_append]
+    simp only [encodeRaw, he, List.cons_append, List.append_assoc]
+    rw [decVal_scalar f d none b _ (by omega) (by omega) (by omega)]
+    simp only [decScalar, decText, hm, h0, h1, h2, if_false, if_true, hd, h3, takeN_append]
   | .array xs, fuel, d, rest, hw, hdep, hf => by
     obtain ⟨f, rfl⟩ : ∃ f, fuel = f + 1 := ⟨fuel - 1, by simp [need] at hf; omega⟩
     simp only [wfVal, Bool.and_eq_true, decide_eq_true_eq] at hw
@@ -92,7 +104,7 @@ theorem decVal_enc : ∀ (v : Val) (fuel d : Nat) (rest : Bytes),
     have h4 : ¬ (d ≥ maxDepth) := by omega
     have ih := decList_enc xs f (d + 1) rest hw.2 (by omega) (by omega)
     simp only [encodeRaw, he, List.cons_append, List.append_assoc, decVal, hm, h0, h1, h2, h3, if_false,
-      if_true, hd, h4, ih]
+      if_true, hd, Option.bind_some, h4, ih, arrayK]
   | .map kvs, fuel, d, rest, hw, hdep, hf => by
     obtain ⟨f, rfl⟩ : ∃ f, fuel = f + 1 := ⟨fuel - 1, by simp [need] at hf; omega⟩
     simp only [wfVal, Bool.and_eq_true, decide_eq_true_eq, Bool.not_eq_true'] at hw
@@ -107,7 +119,7 @@ theorem decVal_enc : ∀ (v : Val) (fuel d : Nat) (rest : Bytes),
     have h4 : ¬ (d ≥ maxDepth) := by omega
     have ih := decKVs_enc kvs f (d + 1) rest hw.2 (by omega) (by omega)
     simp only [encodeRaw, he, List.cons_append, List.append_assoc, decVal, hm, h0, h1, h2, h3, h3', if_false,
-      if_true, hd, h4, ih, hw.1.2]
+      if_true, hd, Option.bind_some, h4, ih, mapK, hw.1.2]
     simp
   | .link c, fuel, d, rest, hw, _, hf => by
     obtain ⟨f, rfl⟩ : ∃ f, fuel = f + 2 := ⟨fuel - 2, by simp [need] at hf; omega⟩
@@ -129,36 +141,38 @@ theorem decVal_enc : ∀ (v : Val) (fuel d : Nat) (rest : Bytes),
     rw [show ((0x2a : UInt8) :: b :: (tail ++ (0 :: (c ++ rest)))) = (0x2a : UInt8) :: ((b :: tail) ++ ((0 :: c) ++ rest)) from by simp]
     rw [ht]
     simp only [show beNat [(0x2a : UInt8)] = 42 from by decide, show ¬ (42 < 24) from by omega, if_false,
-      show ¬ (42 ≥ 9223372036854775808) from by omega]
-    simp only [List.cons_append, decVal, hm, show ¬ (2 = 0) from by omega, show ¬ (2 = 1) from by omega, if_false, if_true]
+      show ¬ (42 ≥ 9223372036854775808) from by omega, Option.bind_some]
+    simp only [List.cons_append]
+    rw [decVal_scalar f d (some 42) b _ (by omega) (by omega) (by omega)]
+    simp only [decScalar, decBytes, taggedBytes, hm, show ¬ (2 = 0) from by omega, show ¬ (2 = 1) from by omega, if_false, if_true]
     rw [show tail ++ (0 :: (c ++ rest)) = tail ++ ((0 :: c) ++ rest) from by simp, hd]
     simp only [h2, if_false, htk, hw.1, if_true]
   | .bool false, fuel, d, rest, _, _, hf => by
     obtain ⟨f, rfl⟩ : ∃ f, fuel = f + 1 := ⟨fuel - 1, by simp [need] at hf; omega⟩
     simp only [encodeRaw, List.cons_append, List.nil_append]
-    rw [decVal]
-    simp only [show (0xf4 : UInt8).toNat / 32 = 7 from by decide, show (0xf4 : UInt8).toNat % 32 = 20 from by decide]
+    rw [decVal_scalar f d none 0xf4 _ (by decide) (by decide) (by decide)]
+    simp only [decScalar, decSimple, decFloat, show (0xf4 : UInt8).toNat / 32 = 7 from by decide, show (0xf4 : UInt8).toNat % 32 = 20 from by decide]
     simp
   | .bool true, fuel, d, rest, _, _, hf => by
     obtain ⟨f, rfl⟩ : ∃ f, fuel = f + 1 := ⟨fuel - 1, by simp [need] at hf; omega⟩
     simp only [encodeRaw, List.cons_append, List.nil_append]
-    rw [decVal]
-    simp only [show (0xf5 : UInt8).toNat / 32 = 7 from by decide, show (0xf5 : UInt8).toNat % 32 = 21 from by decide]
+    rw [decVal_scalar f d none 0xf5 _ (by decide) (by decide) (by decide)]
+    simp only [decScalar, decSimple, decFloat, show (0xf5 : UInt8).toNat / 32 = 7 from by decide, show (0xf5 : UInt8).toNat % 32 = 21 from by decide]
     simp
   | .null, fuel, d, rest, _, _, hf => by
     obtain ⟨f, rfl⟩ : ∃ f, fuel = f + 1 := ⟨fuel - 1, by simp [need] at hf; omega⟩
     simp only [encodeRaw, List.cons_append, List.nil_append]
-    rw [decVal]
-    simp only [show (0xf6 : UInt8).toNat / 32 = 7 from by decide, show (0xf6 : UInt8).toNat % 32 = 22 from by decide]
+    rw [decVal_scalar f d none 0xf6 _ (by decide) (by decide) (by decide)]
+    simp only [decScalar, decSimple, decFloat, show (0xf6 : UInt8).toNat / 32 = 7 from by decide, show (0xf6 : UInt8).toNat % 32 = 22 from by decide]
     simp
   | .float bits, fuel, d, rest, hw, _, hf => by
     obtain ⟨f, rfl⟩ : ∃ f, fuel = f + 1 := ⟨fuel - 1, by simp [need] at hf; omega⟩
     simp only [wfVal, Bool.and_eq_true, decide_eq_true_eq] at hw
     simp only [encodeRaw, List.cons_append]
-    rw [decVal]
-    simp only [show (0xfb : UInt8).toNat / 32 = 7 from by decide, show (0xfb : UInt8).toNat % 32 = 27 from by decide]
-    simp only [takeN_beBytes, beNat_beBytes 8 bits (by omega), hw.2]
-    simp
+    rw [decVal_scalar f d none 0xfb _ (by decide) (by decide) (by decide)]
+    simp only [decScalar, decSimple, decFloat, show (0xfb : UInt8).toNat / 32 = 7 from by decide, show (0xfb : UInt8).toNat % 32 = 27 from by decide]
+    simp only [takeN_beBytes, beNat_beBytes 8 bits (by omega), id, hw.2]
+    simp [hw.2]
 theorem decList_enc : ∀ (xs : List Val) (fuel d : Nat) (rest : Bytes),
     wfValList xs = true → d + depthList xs ≤ maxDepth → needList xs ≤ fuel →
     decList fuel d xs.length (encodeRawList xs ++ rest) = some (xs, rest)
